@@ -4,6 +4,8 @@ import (
 	"bytes"
 	"fmt"
 
+	"github.com/sarchlab/akita/v4/mem/idealmemcontroller"
+
 	"verifharness/vlib"
 	"verifharness/vlib/kern"
 )
@@ -208,7 +210,22 @@ func (c *child) canonContain() {
 	// A's page and ending in the slack of B's page
 	th.kernel(m, B.Off, 64, kern.OpAdd, 0x01010101, false)
 	th.drainAll()
+	if debugTrace {
+		for _, comp := range c.p.Sim.Components() {
+			if dr, ok := comp.(*idealmemcontroller.Comp); ok {
+				raw, _ := dr.Storage.Read(m.pagePA[B.Off/pageSize], 16)
+				fmt.Printf("DRAM %x shadow %x\n", raw, m.shadow[B.Off:B.Off+16])
+				break
+			}
+		}
+	}
 	th.d2h(m, A.Off+200, B.Off+256+100-(A.Off+200), bt, false, "d2h", -1)
+	if debugTrace {
+		pd := m.pend[len(m.pend)-1]
+		th.c.drain(0, m.queues[0])
+		g := pd.bytesOf()
+		fmt.Printf("GOT %x want %x\n", g[B.Off-(A.Off+200):B.Off-(A.Off+200)+16], pd.want[B.Off-(A.Off+200):B.Off-(A.Off+200)+16])
+	}
 	th.drainAll()
 	c.count("canonical_cases|contain-slack-d2h", 1)
 	// (4) the same for H2D: the copy must not be undone by a later write-back
